@@ -7,20 +7,3 @@ pub fn fmt_format_stub(_args: core::fmt::Arguments<'_>) -> String {
     String::new()
 }
 
-/// `bumpalo::Bump::alloc_layout` / `try_alloc_layout` -> the global allocator.
-/// Arena bookkeeping is not the subject of any property.
-pub fn bump_alloc_layout_stub(_b: &bumpalo::Bump, layout: core::alloc::Layout) -> core::ptr::NonNull<u8> {
-    if layout.size() == 0 {
-        return core::ptr::NonNull::new(layout.align() as *mut u8).unwrap();
-    }
-    let p = unsafe { std::alloc::alloc(layout) };
-    kani::assume(!p.is_null());
-    core::ptr::NonNull::new(p).unwrap()
-}
-
-pub fn bump_try_alloc_layout_stub(
-    b: &bumpalo::Bump,
-    layout: core::alloc::Layout,
-) -> Result<core::ptr::NonNull<u8>, bumpalo::AllocErr> {
-    Ok(bump_alloc_layout_stub(b, layout))
-}
